@@ -6,12 +6,14 @@ namespace Tcs
 
 theorem sqlSrc_newClient (cl l : Uuid) (s : Sql) :
     SqlGen.exec cl (.newClient l) (encSql s) = ((Sql.exec cl (.newClient l) s).1, encSql (Sql.exec cl (.newClient l) s).2) := by
-  have hnr : newRow [Col.client_id, Col.latest_version_id] [0, 1] [SqlVal.id cl, SqlVal.id l] = encC { clientId := cl, latest := l } := by
-    funext c; cases c <;> simp [newRow, lookupCol, param, encC, optId, optNat, optInt, optBlob]
   have hkey : ∀ r : ClientRow, sqlEq (encC r Col.client_id) (SqlVal.id cl) = decide (r.clientId = cl) := by
     intro r; simp [sqlEq, encC]
   simp only [SqlGen.exec, SqlSrc.newClient, run1, execStmt, RowDb.get, RowDb.set, encSql, List.map_cons, List.map_nil, bindP, Sql.exec,
-    pkOf, hnr]
+    pkOf]
+  generalize hnr : newRow _ _ _ = nr
+  have hnr' : nr = encC { clientId := cl, latest := l } := by
+    rw [← hnr]; funext c; cases c <;> simp [newRow, lookupCol, param, encC, optId, optNat, optInt, optBlob]
+  subst hnr'
   have hk : encC { clientId := cl, latest := l } Col.client_id = SqlVal.id cl := rfl
   rw [hk, any_map_enc encC s.clients _ (fun r => decide (r.clientId = cl)) hkey]
   have hfilt : (s.clients.map encC).filter (fun r => !sqlEq (r Col.client_id) (SqlVal.id cl)) =
